@@ -198,6 +198,7 @@ def run(ctx):
         "raised iff the interruption flag is set (shared with C08.D1); D4 a failed status becomes FailedStatus chained to the "
         "device exception and the task's exception is re-raised. Not decided: which status a given schedule produces.")
     d1_tables(ctx, rm)
+    q.per_call_reset(ctx, rm, "C02.D2-status-reset-per-call", ["_exit_status", "_reason", "_exception"])
     d2_status_reaches_stop(ctx, rm)
     n0 = len(ctx.obligations)
     c08.d1_raise_iff_interrupted(ctx, rm)
